@@ -76,13 +76,13 @@ type c08Env struct {
 	// Label objects kept from earlier operations: an API client may well reuse one (set after get,
 	// set after set); the result must not depend on that
 	labelObjs map[string]*core.Label
-	c       *ctx
-	env     *corekit.Env
-	bundles []string                   // rank -> bundle id
-	rank    map[string]int             // bundle id -> rank
-	ofRepo  map[string][]int           // repo -> ranks
-	used    map[string]map[string]bool // repo -> label names ever mentioned
-	bcache  map[string]*core.Bundle    // bundle handles (core.NewBundle builds a logger each time)
+	c         *ctx
+	env       *corekit.Env
+	bundles   []string                   // rank -> bundle id
+	rank      map[string]int             // bundle id -> rank
+	ofRepo    map[string][]int           // repo -> ranks
+	used      map[string]map[string]bool // repo -> label names ever mentioned
+	bcache    map[string]*core.Bundle    // bundle handles (core.NewBundle builds a logger each time)
 }
 
 // handle returns the bundle handle the cmd layer would build for (repo, bundle id).
